@@ -280,7 +280,12 @@ pub enum Offer {
 
 /// Channel creator: creates a channel claiming one end, hands the other to the peer, establishes,
 /// then produces or consumes; may close or drop early.
-pub async fn chan_creator(ctx: Ctx, mail: Rc<Mailbox<Offer>>, creator_sends: bool, cap: u32, items: u32) {
+///
+/// `gone` is the out-of-band word of the peer role that it will not claim the unclaimed end (it
+/// closed or dropped it, or its client is dead): an unclaimed end belongs to nobody, so if the
+/// peer's client died before claiming it the broker has nobody to report and the creator would
+/// wait for ever -- as a real application would, without a timeout of its own.
+pub async fn chan_creator(ctx: Ctx, mail: Rc<Mailbox<Offer>>, creator_sends: bool, cap: u32, items: u32, gone: Rc<Slot<()>>) {
     ctx.jitter().await;
     if creator_sends {
         let r = op!(ctx, "create_channel_claim_sender", json!({}), ctx.handle.create_low_level_channel().claim_sender());
@@ -299,7 +304,16 @@ pub async fn chan_creator(ctx: Ctx, mail: Rc<Mailbox<Offer>>, creator_sends: boo
             drop(pending);
             return;
         }
-        let Ok(sender) = op!(ctx, "establish_sender", json!({}), pending.establish()) else { return };
+        let id = ctx.log.start(&ctx.name, "establish_sender", json!({}));
+        let r = match select2(pending.establish(), gone.get()).await {
+            Either::Left(r) => r,
+            Either::Right(()) => {
+                ctx.log.ret(&ctx.name, "establish_sender", id, "abandoned", json!({}));
+                return;
+            }
+        };
+        ctx.log.ret(&ctx.name, "establish_sender", id, &res_str(&r), json!({}));
+        let Ok(sender) = r else { return };
         produce(&ctx, sender, items).await;
     } else {
         let r = op!(ctx, "create_channel_claim_receiver", json!({"cap": cap}), ctx.handle.create_low_level_channel().claim_receiver(cap));
@@ -316,13 +330,22 @@ pub async fn chan_creator(ctx: Ctx, mail: Rc<Mailbox<Offer>>, creator_sends: boo
             drop(pending);
             return;
         }
-        let Ok(receiver) = op!(ctx, "establish_receiver", json!({}), pending.establish()) else { return };
+        let id = ctx.log.start(&ctx.name, "establish_receiver", json!({}));
+        let r = match select2(pending.establish(), gone.get()).await {
+            Either::Left(r) => r,
+            Either::Right(()) => {
+                ctx.log.ret(&ctx.name, "establish_receiver", id, "abandoned", json!({}));
+                return;
+            }
+        };
+        ctx.log.ret(&ctx.name, "establish_receiver", id, &res_str(&r), json!({}));
+        let Ok(receiver) = r else { return };
         consume(&ctx, receiver).await;
     }
 }
 
 /// Channel peer: receives the unclaimed end and claims, closes or drops it.
-pub async fn chan_peer(ctx: Ctx, mail: Rc<Mailbox<Offer>>, cap: u32, items: u32) {
+pub async fn chan_peer(ctx: Ctx, mail: Rc<Mailbox<Offer>>, cap: u32, items: u32, gone: Rc<Slot<()>>) {
     let offer = mail.pop().await;
     ctx.jitter().await;
     match offer {
@@ -333,13 +356,16 @@ pub async fn chan_peer(ctx: Ctx, mail: Rc<Mailbox<Offer>>, cap: u32, items: u32)
                 0 => {
                     let mut u = unclaimed;
                     let _ = op!(ctx, "unclaimed_close", json!({}), u.close());
+                    gone.set(());
                 }
-                1 => drop(unclaimed),
-                _ => {
-                    if let Ok(receiver) = op!(ctx, "claim_receiver", json!({"cap": cap}), unclaimed.claim(cap)) {
-                        consume(&ctx, receiver).await;
-                    }
+                1 => {
+                    drop(unclaimed);
+                    gone.set(());
                 }
+                _ => match op!(ctx, "claim_receiver", json!({"cap": cap}), unclaimed.claim(cap)) {
+                    Ok(receiver) => consume(&ctx, receiver).await,
+                    Err(_) => gone.set(()),
+                },
             }
         }
         Offer::PeerSends(cookie) => {
@@ -348,13 +374,16 @@ pub async fn chan_peer(ctx: Ctx, mail: Rc<Mailbox<Offer>>, cap: u32, items: u32)
                 0 => {
                     let mut u = unclaimed;
                     let _ = op!(ctx, "unclaimed_close", json!({}), u.close());
+                    gone.set(());
                 }
-                1 => drop(unclaimed),
-                _ => {
-                    if let Ok(sender) = op!(ctx, "claim_sender", json!({}), unclaimed.claim()) {
-                        produce(&ctx, sender, items).await;
-                    }
+                1 => {
+                    drop(unclaimed);
+                    gone.set(());
                 }
+                _ => match op!(ctx, "claim_sender", json!({}), unclaimed.claim()) {
+                    Ok(sender) => produce(&ctx, sender, items).await,
+                    Err(_) => gone.set(()),
+                },
             }
         }
     }
